@@ -17,6 +17,11 @@ TWINS = [((0, 3), (1, 2)), ((-1, 3), (-2, 3)), ((-1, 1), (-2, 1)), ((0, 5), (2, 
 KINDS = ["All", "Any", "AtLeast", "AtLeastS", "AtMost", "Xor", "ExactlyOne", "XNor", "Imply", "Not"]
 
 
+class Item(puan.variable):
+    """applications subclass puan.variable for their items (the repository's tests do so too)"""
+    pass
+
+
 class Opts:
     def __init__(self, **kw):
         self.depth = 3
@@ -31,6 +36,7 @@ class Opts:
         self.p_copy = 0.05          # equal copy of an already generated sub-recipe
         self.p_alias = 0.06         # the same definition once more, written with another class (Any(..) vs AtLeast(1,..) vs the inside of Xor(..))
         self.p_str = 0.1            # bare string leaf (only for boolean leaves)
+        self.p_subclass = 0.0       # pool whose leaves are instances of a subclass of puan.variable
         self.odd_ids = 0.15
         self.kinds = KINDS
         self.p_leaf = 0.45
@@ -45,6 +51,7 @@ def make_pool(rng, o):
         base = base[:4] + rng.sample(ODD_IDS, 6)
     ids = rng.sample(base, min(n, len(base)))
     pool = []
+    sub = rng.random() < o.p_subclass
     for name in ids:
         if rng.random() < o.p_int:
             t = rng.random()
@@ -61,11 +68,14 @@ def make_pool(rng, o):
             pool.append({"k": "var", "id": name, "b": list(b)})
         else:
             pool.append({"k": "var", "id": name, "b": [0, 1]})
+    if sub:
+        for l in pool:
+            l["cls"] = "sub"
     return pool
 
 
 class IdGen:
-    FORMS = ["P%d", "Q %d", "r,%d", "ü%d"]
+    FORMS = ["P%d", "Q %d", "r,%d", "ü%d", "VAR%d", "VARIANT_%d"]
 
     def __init__(self, rng, odd=False):
         self.i = 0
@@ -74,7 +84,7 @@ class IdGen:
 
     def next(self):
         self.i += 1
-        return (self.FORMS[self.i % 4] if self.odd else "P%d") % self.i
+        return (self.FORMS[self.i % len(self.FORMS)] if self.odd else "P%d") % self.i
 
 
 def gen_model(rng, o=None, pool=None, idgen=None, made=None, depth=None, top=True):
@@ -224,6 +234,8 @@ def build(r, env=None, cc=None):
     env = {} if env is None else env
     k = r["k"]
     if k == "var":
+        if r.get("cls") == "sub":
+            return Item(r["id"], bounds=tuple(r["b"]))        # an instance of a subclass of puan.variable
         return puan.variable(r["id"], bounds=tuple(r["b"]))
     if k == "str":
         return r["id"]
